@@ -226,6 +226,10 @@ type Terminal struct {
 	startupDone bool
 	writeNo     int
 
+	// UnsupportedModeReport is the DECRPM status reported for private modes
+	// the terminal does not support: 0 (not recognised) or 4 (permanently reset).
+	UnsupportedModeReport int
+
 	Gfx        []GfxEvent
 	SixelCount int
 	SixelAt    [][3]int // row, col (cursor when the sixel arrived), body length
@@ -1159,7 +1163,9 @@ func (t *Terminal) csiDispatch(final byte) {
 	case "?|$|p":
 		mode := pv0(ps, 0)
 		t.probe("", true)
-		v := 0
+		// 0 = not recognised; a terminal may also know a mode it cannot
+		// enable and report 4 (permanently reset): still not supported
+		v := t.UnsupportedModeReport
 		if t.modeRecognised(mode) {
 			v = 2
 			if t.Modes[mode] {
